@@ -392,8 +392,14 @@ def replay(r):
       byname[nm].assign(core.witness_np(w['v%d' % i]).astype(np.float32))
   # weights must satisfy their own constraints: apply the real constraints once and require (almost) no movement
   moved = 0.0
+  # variables whose constraint has no predicate form (KFL scale, then KFL kernel) carry the raw pre-projection witness: the
+  # real constraints are applied to them once, in that order, exactly as one optimizer step would
+  for kind_ in ('ScaleConstraints', 'KroneckerFactoredLatticeConstraints'):
+    for v in fn.variables:
+      if v.constraint is not None and type(v.constraint).__name__ == kind_:
+        v.assign(v.constraint(v))
   for v in fn.variables:
-    if v.constraint is not None:
+    if v.constraint is not None and type(v.constraint).__name__ not in ('ScaleConstraints', 'KroneckerFactoredLatticeConstraints'):
       new = v.constraint(v)
       moved = max(moved, float(tf.reduce_max(tf.abs(new - v))))
   out = model(xs).numpy().astype(np.float64).reshape(2)
